@@ -60,19 +60,21 @@ Section Proofs.
     | _ => ss_v s1 = ss_v s
     end.
   Proof.
-    destruct q as [name mask|name rq|name mask uo|i]; simpl.
+    destruct q as [name mask|name rq|name mask uo|i|i]; simpl.
     - destruct (routed name); reflexivity.
     - destruct (routed name); [|reflexivity].
       rewrite srv_set_rule. destruct (rule (v_val (ss_v s)) rq) as [nv|c]; simpl; [reflexivity|].
       destruct checked; reflexivity.
     - reflexivity.
     - reflexivity.
+    - reflexivity.
   Qed.
 
   Lemma deliver_nil (st : stream) : deliver [] st = st.
   Proof.
-    unfold deliver. destruct (st_open st && st_routed st) eqn:E; [|reflexivity].
-    rewrite app_nil_r. apply andb_prop in E. destruct E as [E1 _]. destruct st; simpl in *. subst. reflexivity.
+    unfold deliver. destruct (st_open st && st_routed st && st_reading st) eqn:E; [|reflexivity].
+    rewrite app_nil_r. apply andb_prop in E. destruct E as [E0 E2]. apply andb_prop in E0. destruct E0 as [E1 _].
+    destruct st; simpl in *. subst. reflexivity.
   Qed.
 
   (* ---- clause 5: a rejected Update changes nothing at all (register, streams) ---- *)
@@ -91,7 +93,7 @@ Section Proofs.
   Lemma quiet_step (s s1 : sstate) q p : step s q = (s1, p) -> ok_update p = false -> ss_v s1 = ss_v s.
   Proof.
     intros H Hq. pose proof (step_register s q) as R. rewrite H in R.
-    destruct p as [r|[r|c]| |]; try exact R. discriminate.
+    destruct p as [r|[r|c]| | |]; try exact R. discriminate.
   Qed.
 
   Lemma quiet_run qs : forall (s s2 : sstate) outs,
@@ -233,9 +235,9 @@ Section Proofs.
      first message is the current value under the request's name *)
   Theorem pull_opens_at_current (s : sstate) name k uo :
     step s (QPull name k uo) =
-    (mkSS (ss_v s) (ss_streams s ++ [mkSt name (mkR k uo None) (routed name) (live (v_val (ss_v s))) (ss_v s) [] true]), POpened) /\
+    (mkSS (ss_v s) (ss_streams s ++ [mkSt name (mkR k uo None) (routed name) (live (v_val (ss_v s))) (ss_v s) [] true true]), POpened) /\
     (routed name = true -> live (v_val (ss_v s)) = true ->
-     handler_sent (mkSt name (mkR k uo None) (routed name) (live (v_val (ss_v s))) (ss_v s) [] true) =
+     handler_sent (mkSt name (mkR k uo None) (routed name) (live (v_val (ss_v s))) (ss_v s) [] true true) =
      if uo then [] else match v_val (ss_v s) with
                         | Some v => [(name, match k with Some m => r_filter m v | None => v end)]
                         | None => [] end).
@@ -255,7 +257,7 @@ Section Proofs.
       exists st1, nth_error (ss_streams s1) i = Some st1 /\
         st_name st1 = st_name st /\ stream_status st1 = stream_status st /\
         handler_sent st1 = handler_sent st ++
-          (if st_open st && served st && negb (suppressed (last_value (handler_sent st)) (filt (st_ro st) r))
+          (if st_open st && st_reading st && served st && negb (suppressed (last_value (handler_sent st)) (filt (st_ro st) r))
            then [(st_name st, filt (st_ro st) r)] else []).
   Proof.
     simpl. destruct (routed name); [|discriminate].
@@ -266,6 +268,8 @@ Section Proofs.
     unfold deliver. destruct (st_open st) eqn:Eo; simpl.
     2:{ repeat split; try reflexivity. rewrite app_nil_r. reflexivity. }
     unfold served. destruct (st_routed st) eqn:Er; simpl.
+    2:{ rewrite andb_false_r. repeat split; try reflexivity. rewrite app_nil_r. reflexivity. }
+    destruct (st_reading st) eqn:Erd; simpl.
     2:{ repeat split; try reflexivity. rewrite app_nil_r. reflexivity. }
     split; [reflexivity|]. split.
     { unfold GenericServer.stream_status. simpl. rewrite Er, Eo. reflexivity. }
@@ -275,7 +279,7 @@ Section Proofs.
     rewrite last_sent_is_holding by exact Hsv.
     rewrite (@handler_sent_shape st) by exact Hsv.
     rewrite handler_sent_shape by (unfold served; simpl; try rewrite El; reflexivity). simpl.
-    assert (Hs : seed_of (mkSt (st_name st) (st_ro st) true true (st_at st) (st_evs st ++ [mkVE r (clock_at (v_reads (ss_v s)))]) true)
+    assert (Hs : seed_of (mkSt (st_name st) (st_ro st) true true (st_at st) (st_evs st ++ [mkVE r (clock_at (v_reads (ss_v s)))]) true true)
                  = seed_of st) by reflexivity.
     rewrite Hs. rewrite v_forward_snoc. simpl. rewrite map_app, app_assoc. f_equal.
     destruct (suppressed (holding (st_ro st) (seed_of st) (st_evs st)) (filt (st_ro st) r)); reflexivity.
@@ -297,13 +301,27 @@ Section Proofs.
   Lemma cancel_at_length i : forall (l : list stream), List.length (cancel_at i l) = List.length l.
   Proof. induction i as [|i IH]; intros [|x l]; simpl; auto. Qed.
 
+  Lemma stall_at_nth i : forall (l : list stream) j st,
+    nth_error l j = Some st ->
+    nth_error (stall_at i l) j = Some (if Nat.eqb i j then stall st else st).
+  Proof.
+    induction i as [|i IH]; intros [|x l] [|j] st H; simpl in *; try discriminate.
+    - inversion H; reflexivity.
+    - exact H.
+    - exact H.
+    - apply IH. exact H.
+  Qed.
+
+  Lemma stall_at_length i : forall (l : list stream), List.length (stall_at i l) = List.length l.
+  Proof. induction i as [|i IH]; intros [|x l]; simpl; auto. Qed.
+
   Theorem other_requests_stream_nothing (s s1 : sstate) q p :
     step s q = (s1, p) -> ok_update p = false ->
     forall i st, nth_error (ss_streams s) i = Some st ->
       exists st1, nth_error (ss_streams s1) i = Some st1 /\ handler_sent st1 = handler_sent st /\
                   st_name st1 = st_name st.
   Proof.
-    intros H Hq i st Hi. destruct q as [name mask|name rq|name mask uo|j]; simpl in H.
+    intros H Hq i st Hi. destruct q as [name mask|name rq|name mask uo|j|j]; simpl in H.
     - destruct (routed name); inversion H; subst; exists st; auto.
     - destruct (routed name).
       + rewrite srv_set_rule in H. destruct (rule (v_val (ss_v s)) rq) as [nv|c]; simpl in H.
@@ -317,5 +335,85 @@ Section Proofs.
     - inversion H; subst. simpl. rewrite (cancel_at_nth j _ _ Hi).
       destruct (Nat.eqb j i); [|exists st; auto].
       exists (close st). repeat split; reflexivity.
+    - inversion H; subst. simpl. rewrite (stall_at_nth j _ _ Hi).
+      destruct (Nat.eqb j i); [|exists st; auto].
+      exists (stall st). repeat split; reflexivity.
+  Qed.
+
+  (* ---- a reader that does not keep up holds nobody back: stalling a stream changes neither the
+     register nor any response nor any other stream, now or later ---- *)
+  Definition same_but (i : nat) (a b : sstate) : Prop :=
+    ss_v a = ss_v b /\ List.length (ss_streams a) = List.length (ss_streams b) /\
+    forall j, j <> i -> nth_error (ss_streams a) j = nth_error (ss_streams b) j.
+
+  Lemma cancel_at_nth_opt i : forall (l : list stream) j,
+    nth_error (cancel_at i l) j = option_map (fun st => if Nat.eqb i j then close st else st) (nth_error l j).
+  Proof.
+    induction i as [|i IH]; intros [|x l] [|j]; simpl; try reflexivity.
+    - destruct (nth_error l j); reflexivity.
+    - apply IH.
+  Qed.
+
+  Lemma stall_at_nth_opt i : forall (l : list stream) j,
+    nth_error (stall_at i l) j = option_map (fun st => if Nat.eqb i j then stall st else st) (nth_error l j).
+  Proof.
+    induction i as [|i IH]; intros [|x l] [|j]; simpl; try reflexivity.
+    - destruct (nth_error l j); reflexivity.
+    - apply IH.
+  Qed.
+
+  Lemma nth_error_snoc_eq {A} (l l' : list A) x j :
+    List.length l = List.length l' -> nth_error l j = nth_error l' j ->
+    nth_error (l ++ [x]) j = nth_error (l' ++ [x]) j.
+  Proof.
+    intros Hl Hn. destruct (Nat.lt_ge_cases j (List.length l)) as [Hlt|Hge].
+    - rewrite !nth_error_app1 by lia. exact Hn.
+    - rewrite !nth_error_app2 by lia. rewrite Hl. reflexivity.
+  Qed.
+
+  Lemma step_same_but i (a b : sstate) q :
+    same_but i a b -> snd (step a q) = snd (step b q) /\ same_but i (fst (step a q)) (fst (step b q)).
+  Proof.
+    intros [Hv [Hl Hn]]. destruct a as [va la], b as [vb lb]. cbn [ss_v ss_streams] in *. subst vb.
+    destruct q as [name mask|name rq|name mask uo|k|k]; cbn [step ss_v ss_streams].
+    - destruct (routed name); cbn [fst snd]; (split; [reflexivity|]); repeat split; auto.
+    - destruct (routed name); cbn [fst snd]; [|split; [reflexivity|]; repeat split; auto].
+      destruct (srv_set va rq) as [[v' r] evs]. cbn [fst snd]. split; [reflexivity|].
+      unfold same_but. cbn [ss_v ss_streams]. split; [reflexivity|]. split; [rewrite !map_length; exact Hl|].
+      intros j Hj. rewrite !nth_error_map, (Hn j Hj). reflexivity.
+    - cbn [fst snd]. split; [reflexivity|]. unfold same_but. cbn [ss_v ss_streams].
+      split; [reflexivity|]. split; [rewrite !app_length, Hl; reflexivity|].
+      intros j Hj. apply nth_error_snoc_eq; [exact Hl|exact (Hn j Hj)].
+    - cbn [fst snd]. split; [reflexivity|]. unfold same_but. cbn [ss_v ss_streams].
+      split; [reflexivity|]. split; [rewrite !cancel_at_length; exact Hl|].
+      intros j Hj. rewrite !cancel_at_nth_opt, (Hn j Hj). reflexivity.
+    - cbn [fst snd]. split; [reflexivity|]. unfold same_but. cbn [ss_v ss_streams].
+      split; [reflexivity|]. split; [rewrite !stall_at_length; exact Hl|].
+      intros j Hj. rewrite !stall_at_nth_opt, (Hn j Hj). reflexivity.
+  Qed.
+
+  Lemma run_same_but i qs : forall (a b : sstate),
+    same_but i a b -> snd (run a qs) = snd (run b qs) /\ same_but i (fst (run a qs)) (fst (run b qs)).
+  Proof.
+    induction qs as [|q r IH]; intros a b H; [split; [reflexivity|exact H]|].
+    cbn [run]. destruct (step_same_but q H) as [Hp Hs].
+    destruct (step a q) as [a1 pa]. destruct (step b q) as [b1 pb]. cbn [fst snd] in *. subst pb.
+    destruct (IH a1 b1 Hs) as [Hps Hss].
+    destruct (run a1 r) as [a2 ps]. destruct (run b1 r) as [b2 ps']. cbn [fst snd] in *. subst ps'.
+    split; [reflexivity|exact Hss].
+  Qed.
+
+  Theorem stalled_reader_holds_nobody_back (s : sstate) i qs :
+    let stalled := mkSS (ss_v s) (stall_at i (ss_streams s)) in
+    snd (run stalled qs) = snd (run s qs) /\
+    ss_v (fst (run stalled qs)) = ss_v (fst (run s qs)) /\
+    forall j, j <> i -> nth_error (ss_streams (fst (run stalled qs))) j = nth_error (ss_streams (fst (run s qs))) j.
+  Proof.
+    intros stalled.
+    assert (H : same_but i stalled s).
+    { unfold same_but, stalled. cbn [ss_v ss_streams]. split; [reflexivity|]. split; [apply stall_at_length|].
+      intros j Hj. rewrite stall_at_nth_opt. destruct (Nat.eqb_spec i j); [congruence|].
+      destruct (nth_error (ss_streams s) j); reflexivity. }
+    destruct (run_same_but qs H) as [Hp [Hv [_ Hn]]]. auto.
   Qed.
 End Proofs.
